@@ -688,3 +688,5 @@ LEVEL_TEXT = ("Machine-checked Lean 4 theorems over ALL operation histories (ind
 LEVEL_NOTE = ("las[mnemonic] on a section with mnemonic_transforms resolves by the section's case-insensitive comparison after an exact membership "
               "test; it is the first exactly-equal session name when transforms are off or session names are distinct (C13's hypothesis) — counter-example "
               "theorem C14_counterexample_getitem_transforms otherwise. Aliasing of item/array objects is outside the functional model.")
+
+RULE = RULE + ("; ALSO (fifth session): operations with BOTH selectors (`delete_curve(mnemonic=, ix=)`, `update_curve(mnemonic=, ix=)`: the index wins) and updates with EMPTY metadata strings")
